@@ -9,6 +9,7 @@ KIND_DESC = {
     "k3": "truncate(any threshold): invariant for the prefix, later data files removed",
     "k6": "truncate then append: invariant for prefix ++ [new], read back through the API",
     "k7": "crash at a rollover leaving a partially written next data file, re-open, append again (rolls over into the stale file): invariant holds",
+    "k8": "crash cut of an append, re-open, a further append and an arbitrary read back: the handle the repair leaves (head file, head id, count) serves the surviving prefix, also after slipping back into an earlier data file with room",
     "k5": "crash cut of an append (data file and index independently cut, new head possibly missing) then re-open: contiguous prefix, n >= fully written items",
 }
 FUNCS = ["freezer/src/freezer_files.rs::FreezerFilesBuilder::build", "freezer/src/freezer_files.rs::FreezerFiles::{append,retrieve,truncate,preopen,get_bounds,write_index,open_*}",
@@ -35,7 +36,7 @@ def kani_replay(harness, r, log_dir):
         args += [l, 1 if nf else 0]
     if e["kind"] == "k6":
         args += [e["t"], e["l"]]
-    elif e["kind"] == "k7":
+    elif e["kind"] in ("k7", "k8"):
         args += [e["l"], e["ms"], e["l2"]]
     elif "l" in e:
         args += [e["l"], e["ms"]]
@@ -54,7 +55,7 @@ LEVEL = "other"
 EXPLANATION = ("Bounded model checking (Kani/CBMC) of the real freezer_files.rs against a cfg(kani) POSIX model file system: each harness starts from a valid "
                "on-disk layout with symbolic item bytes, performs one operation (or one crash-cut append + re-open) with symbolic indices/cut lengths and "
                "checks the representation invariant and the byte-for-byte clauses; the invariant makes the steps compose to histories of any length.")
-BOUNDS = {"layouts": "quick: 8 harnesses; thorough: every layout with <= 2 items of 1..2 bytes plus every 3-item layout of 1-byte items, in <= 3 data files (317 harnesses; VERIF_C09_ALL=1 at generation time adds the 3-item layouts with 2-byte items, 610 harnesses)",
+BOUNDS = {"layouts": "quick: 10 harnesses; thorough: every layout with <= 2 items of 1..2 bytes plus every 3-item layout of 1-byte items, in <= 3 data files (417 harnesses; VERIF_C09_ALL=1 at generation time adds the 3-item layouts with 2-byte items, 610 harnesses)",
           "symbolic": "item bytes, retrieve/truncate index, crash cut lengths of data and index file, missing-new-head flag", "unwind": 6,
           "outside": "snappy compression (switched off by the builder option), LRU eviction below open_files_limit, Freezer wrapper (lock file, tip header), items > 2 bytes, > 4 data files"}
 ASSUMPTIONS = ["model file system verif_fs.rs has POSIX semantics (dup shares offsets, writes at current offset, holes zero-filled)",
